@@ -229,6 +229,75 @@ def run(chk):
                 chk.prove_eq(f"simplex_equations:contains[{nm}]", fk, p.pc, PS.dot(E[:3], P) + E[3], 0)
     _tasks.append(("plane_equations_of_the_simplices", lambda c_, f_=sec_7: f_()))
 
+    def sec_8():
+        """face_centroids: for every face (a symbolic number of them, each with a symbolic number of simplices) the reported point is the
+        area-weighted mean of the centroids of exactly the simplices listed for that face -- the centroid of the polygon they tile"""
+        fk = chk.function(MODC, "ConvexPolyhedron._find_face_centroids")
+
+        def run_fc():
+            o = PS.convex_polyhedron(shapes)
+            o._find_face_centroids()
+            return o._face_centroids
+        Gf = sp.Function("G", integer=True)
+        sub = {PS.K.k: Gf(PS.F.k, PS.LG.k)}
+        a_t = tri_area.xreplace(sub)
+        cen_t = [((A[j] + B[j] + C[j]) / 3).xreplace(sub) for j in range(3)]
+        den = sum_over(PS.LG, a_t)
+        from .bounded_c01 import replay_measure as _rm
+        for p in chk.explore(fk, run_fc, assumptions=facts + PS.F.facts() + PS.LG.facts()):
+            if p.kind != "return":
+                chk.path_raised(fk, p)
+                continue
+            fc = p.value
+            ok = isinstance(fc, SymArr) and tuple(fc.axes) == (PS.F, 3)
+            chk.record("face_centroids:one_point_per_face", fk, "proved" if ok else "refuted", "shape", model={}, replay=_rm("face_centroids"), abstracted=True)
+            if not ok:
+                continue
+            for j in range(3):
+                got = ex(fc.inner[j])
+                want = sum_over(PS.LG, a_t * cen_t[j]) / den
+                z = sigma.is_zero(got * den - sum_over(PS.LG, a_t * cen_t[j])) or sigma.is_zero(got - want)
+                chk.record(f"face_centroids:area_weighted_mean_of_the_faces_simplex_centroids[{'xyz'[j]}]", fk, "proved" if z else "refuted", "sigma-normal-form",
+                           detail="c_f = sum_{t in f} A_t (a_t + b_t + c_t)/3 / sum_{t in f} A_t", model={}, replay=_rm("face_centroids"), abstracted=True)
+    _tasks.append(("face_centroids", lambda c_, f_=sec_8: f_()))
+
+    def sec_9():
+        """ConvexPolyhedron.get_face_area: one area per face, in the order of the faces, each the sum of the areas of exactly the simplices listed
+        for that face; "total" is the sum over all simplices; a single index gives that face's area"""
+        from pyvc.symarr import SymSeq
+        fk = chk.function(MODC, "ConvexPolyhedron.get_face_area")
+        Gf = sp.Function("G", integer=True)
+        a_t = tri_area.xreplace({PS.K.k: Gf(PS.F.k, PS.LG.k)})
+        want_face = sum_over(PS.LG, a_t)
+        from .bounded_c01 import replay_measure as _rm
+        for mode in ("all", "total", "single"):
+            def run_fa(mode=mode):
+                o = PS.convex_polyhedron(shapes)
+                if mode == "all":
+                    return o.get_face_area()
+                if mode == "total":
+                    return o.get_face_area("total")
+                return o.get_face_area(Sym(PS.F.k))
+            for p in chk.explore(fk, run_fa, assumptions=facts + PS.F.facts() + PS.LG.facts()):
+                if p.kind != "return":
+                    chk.path_raised(fk, p)
+                    continue
+                v = p.value
+                if mode == "all":
+                    seq = getattr(v, "sym", v)
+                    ok = isinstance(seq, SymSeq) and seq.dim is PS.F
+                    chk.record("get_face_area:one_area_per_face_in_order", fk, "proved" if ok else "refuted", "shape", model={}, replay=_rm("face_area"), abstracted=True)
+                    if not ok:
+                        continue
+                    z = sigma.is_zero(ex(seq.elem) - want_face)
+                elif mode == "total":
+                    z = sigma.is_zero(ex(v) - sum_over(PS.K, tri_area))
+                else:
+                    z = sigma.is_zero(ex(v) - want_face)
+                chk.record(f"get_face_area:{'each_area' if mode == 'all' else mode}_is_the_sum_of_the_areas_of_the_listed_simplices", fk, "proved" if z else "refuted",
+                           "sigma-normal-form", model={}, replay=_rm("face_area"), abstracted=True)
+    _tasks.append(("get_face_area", lambda c_, f_=sec_9: f_()))
+
     chk.run_parallel(_tasks)
 
     # ---------------------------------------------------------------- canaries
